@@ -292,15 +292,15 @@ func c01Filtered(c *Ctx) {
 func c01Exchange(c *Ctx, before *ssa.Function) {
 	p, r := c.P, c.R
 	table := map[string]string{
-		"(*dnsforward.Server).processUpstream":   "the upstream stage itself (guarded by C01-D2)",
-		"(*dnsforward.Server).genBlockedHost":    "block-page host lookup: resolves the configured safe-browsing/parental block host, not the query",
-		"(*dnsforward.Server).Exchange":          "internal proxy: resolves the server's own PTR questions (rDNS of clients)",
-		"(*dnsforward.Server).Resolve":           "internal proxy: bootstrap/dial resolution of the server's own host names",
-		"(*filtering/hashprefix.Checker).Check":  "hash-prefix lookup; what it may disclose is decided by C19",
-		"dnsforward.checkDNS":                    "admin-initiated upstream test (configuration validator)",
-		"(*dnsforward.upstreamResult).check":     "admin-initiated upstream test (configuration validator)",
-		"(*rdns.Default).Process":                "rDNS enrichment of client addresses through the exchanger given by home (not a client query)",
-		"(*rdns.Default).Process$1":              "rDNS enrichment of client addresses",
+		"(*dnsforward.Server).processUpstream":  "the upstream stage itself (guarded by C01-D2)",
+		"(*dnsforward.Server).genBlockedHost":   "block-page host lookup: resolves the configured safe-browsing/parental block host, not the query",
+		"(*dnsforward.Server).Exchange":         "internal proxy: resolves the server's own PTR questions (rDNS of clients)",
+		"(*dnsforward.Server).Resolve":          "internal proxy: bootstrap/dial resolution of the server's own host names",
+		"(*filtering/hashprefix.Checker).Check": "hash-prefix lookup; what it may disclose is decided by C19",
+		"dnsforward.checkDNS":                   "admin-initiated upstream test (configuration validator)",
+		"(*dnsforward.upstreamResult).check":    "admin-initiated upstream test (configuration validator)",
+		"(*rdns.Default).Process":               "rDNS enrichment of client addresses through the exchanger given by home (not a client query)",
+		"(*rdns.Default).Process$1":             "rDNS enrichment of client addresses",
 	}
 	n := 0
 	for _, fn := range p.ModFns {
